@@ -131,6 +131,8 @@ class Check:
     def _write_replay(self, name, payload):
         os.makedirs(REPLAY_DIR, exist_ok=True)
         path = os.path.join(REPLAY_DIR, name)
+        if isinstance(payload, dict):
+            payload.setdefault("hashseed", os.environ.get("PYTHONHASHSEED", "random"))
         with open(path, "w") as fh:
             json.dump(payload, fh, indent=1, sort_keys=True, default=str)
         return path
